@@ -22,6 +22,9 @@ mod type_system;
 /// Verification hooks for C06 (compiled only with `--cfg samlang_verif`).
 #[cfg(samlang_verif)]
 pub mod verif_hooks_c06;
+/// Verification hooks for C07 (compiled only with `--cfg samlang_verif`).
+#[cfg(samlang_verif)]
+pub mod verif_hooks_c07;
 /// All the typing context in one place.
 mod typing_context;
 mod typing_context_tests;
